@@ -11,7 +11,11 @@ import EaselModel.Dist.BisectThm
 import EaselModel.Dist.BisectTerm
 import EaselModel.Dist.BisectGen
 import EaselModel.Dist.BisectReal
+import EaselModel.Dist.BisectCarrier
 import EaselModel.Dist.Edge
+import EaselModel.Dist.GamSxpThm
+import EaselModel.Dist.MixDeriv
+import EaselModel.Dist.SampleThm
 /-! # C10 — each distribution's pdf, cdf, survival, log and inverse functions agree
 
 Full statement (properties.jsonl): for every supported continuous distribution and all valid parameters and arguments
@@ -219,8 +223,13 @@ example : esl_gev_logsurv (-10 : ℝ) 0 1 0.5 = 0.0 :=
 
 `esl_stats_LogGamma` / `esl_stats_IncompleteGamma` enter as the hand model of `Dist/Special.lean` read over `ℝ`
 (`realIncGamma`, `some (P,Q)` where the C function returns `eslOK`); `erfc` is the complementary error function.
-`_partial` (gamma, stretched exponential): the full statement also needs "P is the regularised incomplete gamma
-function", monotone cdf, inverse and derivative; those are NOT proved (L0 monitors compare with mpmath). -/
+`gam_laws_partial` / `sxp_laws_partial` are the laws that hold of the code's own outputs whatever the special functions do;
+since round 4 the FULL laws are proved for the textbook forms built on the incomplete gamma function defined as an
+integral (`gam_sxp_textbook_laws`), and `gam_sxp_code_vs_textbook` identifies the translated code with them up to the
+two special-function discrepancies, unconditionally.  What stays `_partial` (L0, monitored against mpmath): the SIZE of
+`esl_stats_LogGamma − log Γ` and of `esl_stats_IncompleteGamma − (P, Q)` (the series / continued fraction is not proved
+to converge to the integral), and the bisection inverse's distance from the true quantile (`bisection_inverses_accuracy`
+bounds it relative to the code's own cdf). -/
 
 /-- gamma: cdf + surv = 1 exactly wherever `IncompleteGamma` converges (it forms `Q = 1 - P` or `P = 1 - Q`), the log
     versions are the logarithms of the plain versions, `pdf = exp logpdf` on the interior of the support (repaired: the
@@ -296,6 +305,69 @@ theorem gam_sxp_closed_forms {x μ l τ : ℝ} (hl : 0 < l) (hx : μ < x) :
   · unfold esl_gam_cdf; simp only [lit_zero]; rw [if_neg (not_le.mpr hy)]
   · unfold esl_sxp_cdf; simp only [lit_one, num_exp, num_log]; rw [if_neg (not_le.mpr hx), Real.rpow_def_of_pos hy, mul_comm τ]
 
+/-- gamma and stretched exponential, L2 at full strength, relative to the incomplete gamma function DEFINED AS AN INTEGRAL
+    over Mathlib's Gamma kernel (`IncGammaInt.P a x = (∫_0^x e^{-t} t^{a-1} dt)/Γ(a)`, `Q` the upper integral; proved there:
+    `P + Q = 1`, monotone, limits, `HasDerivAt`): textbook cdf `P(τ, λ(x−μ))`, resp. `P(1/τ, (λ(x−μ))^τ)`, is non-decreasing,
+    within `[0,1]`, `0` up to `μ`, tends to 1, cdf + surv = 1, the density `λ^τ (x−μ)^{τ−1} e^{−λ(x−μ)}/Γ(τ)`, resp.
+    `λ τ e^{−(λ(x−μ))^τ}/Γ(1/τ)`, is its derivative on `x > μ` and integrates to cdf differences.  No hypothesis on any
+    special function. -/
+theorem gam_sxp_textbook_laws {μ l τ : ℝ} (hl : 0 < l) (hτ : 0 < τ) :
+    (Monotone (GamSxpThm.gamCdf μ l τ) ∧ (∀ x, 0 ≤ GamSxpThm.gamCdf μ l τ x ∧ GamSxpThm.gamCdf μ l τ x ≤ 1) ∧
+      (∀ x, x ≤ μ → GamSxpThm.gamCdf μ l τ x = 0) ∧ Filter.Tendsto (GamSxpThm.gamCdf μ l τ) Filter.atTop (nhds 1) ∧
+      (∀ x, GamSxpThm.gamCdf μ l τ x + GamSxpThm.gamSurv μ l τ x = 1) ∧
+      (∀ x, μ < x → HasDerivAt (GamSxpThm.gamCdf μ l τ) (GamSxpThm.gamPdf μ l τ x) x) ∧
+      (∀ a b, μ < a → a ≤ b → ∫ x in a..b, GamSxpThm.gamPdf μ l τ x = GamSxpThm.gamCdf μ l τ b - GamSxpThm.gamCdf μ l τ a)) ∧
+    (Monotone (GamSxpThm.sxpCdf μ l τ) ∧ (∀ x, 0 ≤ GamSxpThm.sxpCdf μ l τ x ∧ GamSxpThm.sxpCdf μ l τ x ≤ 1) ∧
+      (∀ x, x ≤ μ → GamSxpThm.sxpCdf μ l τ x = 0) ∧ Filter.Tendsto (GamSxpThm.sxpCdf μ l τ) Filter.atTop (nhds 1) ∧
+      (∀ x, GamSxpThm.sxpCdf μ l τ x + GamSxpThm.sxpSurv μ l τ x = 1) ∧
+      (∀ x, μ < x → HasDerivAt (GamSxpThm.sxpCdf μ l τ) (GamSxpThm.sxpPdf μ l τ x) x) ∧
+      (∀ a b, μ < a → a ≤ b → ∫ x in a..b, GamSxpThm.sxpPdf μ l τ x = GamSxpThm.sxpCdf μ l τ b - GamSxpThm.sxpCdf μ l τ a)) :=
+  ⟨⟨GamSxpThm.gamCdf_mono hl hτ μ, GamSxpThm.gamCdf_range hl hτ μ, fun _ h => by simp [GamSxpThm.gamCdf, h],
+      GamSxpThm.gamCdf_tendsto_one hl hτ μ, GamSxpThm.gamCdf_add_surv hl hτ μ, fun _ h => GamSxpThm.gamCdf_hasDerivAt hl hτ h,
+      fun _ _ ha hab => GamSxpThm.gam_integral_pdf hl hτ ha hab⟩,
+    ⟨GamSxpThm.sxpCdf_mono hl hτ μ, GamSxpThm.sxpCdf_range hl hτ μ, fun _ h => by simp [GamSxpThm.sxpCdf, h],
+      GamSxpThm.sxpCdf_tendsto_one hl hτ μ, GamSxpThm.sxpCdf_add_surv hl hτ μ, fun _ h => GamSxpThm.sxpCdf_hasDerivAt hl hτ h,
+      fun _ _ ha hab => GamSxpThm.sxp_integral_pdf hl hτ ha hab⟩⟩
+
+/-- gamma and stretched exponential, L1, UNCONDITIONAL: on `x > μ` the translated density is the textbook density times
+    `e^{log Γ(a) − esl_stats_LogGamma(a)}` and the translated cdf / survival differ from the textbook ones exactly by
+    `esl_stats_IncompleteGamma(a, y) − (P a y, Q a y)` (`a = τ, y = λ(x−μ)`, resp. `a = 1/τ, y = (λ(x−μ))^τ`): the two
+    special-function discrepancies are the only way the code can differ from the textbook. -/
+theorem gam_sxp_code_vs_textbook {x μ l τ : ℝ} (hl : 0 < l) (hτ : 0 < τ) (hx : μ < x) :
+    (esl_gam_pdf x μ l τ = GamSxpThm.gamPdf μ l τ x * exp (log (Gamma τ) - Num.logGamma τ) ∧
+      esl_gam_cdf x μ l τ - GamSxpThm.gamCdf μ l τ x = Num.incGammaP τ (l * (x - μ)) - IncGammaInt.P τ (l * (x - μ)) ∧
+      esl_gam_surv x μ l τ - GamSxpThm.gamSurv μ l τ x = Num.incGammaQ τ (l * (x - μ)) - IncGammaInt.Q τ (l * (x - μ))) ∧
+    (esl_sxp_pdf x μ l τ = GamSxpThm.sxpPdf μ l τ x * exp (log (Gamma (1 / τ)) - Num.logGamma (1 / τ)) ∧
+      esl_sxp_cdf x μ l τ - GamSxpThm.sxpCdf μ l τ x =
+        Num.incGammaP (1 / τ) ((l * (x - μ)) ^ τ) - IncGammaInt.P (1 / τ) ((l * (x - μ)) ^ τ) ∧
+      esl_sxp_surv x μ l τ - GamSxpThm.sxpSurv μ l τ x =
+        Num.incGammaQ (1 / τ) ((l * (x - μ)) ^ τ) - IncGammaInt.Q (1 / τ) ((l * (x - μ)) ^ τ)) :=
+  ⟨GamSxpThm.gam_code_vs_textbook hl hτ hx, GamSxpThm.sxp_code_vs_textbook hl hτ hx⟩
+
+/-- …with explicit tolerances: `|LogGamma − log Γ| ≤ ε` and `|IncompleteGamma − (P, Q)| ≤ δ` at the arguments used give
+    density within relative `e^ε − 1`, cdf and survival within `δ`, and the code's cdf + surv within `2δ` of 1.
+    (`ε`, `δ` are parameters: the hypotheses are satisfiable for every instance, e.g. with the discrepancies themselves;
+    the monitors measure `ε ≈ 1e-9`, `δ ≈ 1e-7` against mpmath.) -/
+theorem gam_sxp_code_close {x μ l τ ε δ : ℝ} (hl : 0 < l) (hτ : 0 < τ) (hx : μ < x) :
+    (|Num.logGamma τ - log (Gamma τ)| ≤ ε → |Num.incGammaP τ (l * (x - μ)) - IncGammaInt.P τ (l * (x - μ))| ≤ δ →
+      |Num.incGammaQ τ (l * (x - μ)) - IncGammaInt.Q τ (l * (x - μ))| ≤ δ →
+      |esl_gam_pdf x μ l τ - GamSxpThm.gamPdf μ l τ x| ≤ (exp ε - 1) * GamSxpThm.gamPdf μ l τ x ∧
+      |esl_gam_cdf x μ l τ - GamSxpThm.gamCdf μ l τ x| ≤ δ ∧ |esl_gam_surv x μ l τ - GamSxpThm.gamSurv μ l τ x| ≤ δ ∧
+      |esl_gam_cdf x μ l τ + esl_gam_surv x μ l τ - 1| ≤ 2 * δ) ∧
+    (|Num.logGamma (1 / τ) - log (Gamma (1 / τ))| ≤ ε →
+      |Num.incGammaP (1 / τ) ((l * (x - μ)) ^ τ) - IncGammaInt.P (1 / τ) ((l * (x - μ)) ^ τ)| ≤ δ →
+      |Num.incGammaQ (1 / τ) ((l * (x - μ)) ^ τ) - IncGammaInt.Q (1 / τ) ((l * (x - μ)) ^ τ)| ≤ δ →
+      |esl_sxp_pdf x μ l τ - GamSxpThm.sxpPdf μ l τ x| ≤ (exp ε - 1) * GamSxpThm.sxpPdf μ l τ x ∧
+      |esl_sxp_cdf x μ l τ - GamSxpThm.sxpCdf μ l τ x| ≤ δ ∧ |esl_sxp_surv x μ l τ - GamSxpThm.sxpSurv μ l τ x| ≤ δ ∧
+      |esl_sxp_cdf x μ l τ + esl_sxp_surv x μ l τ - 1| ≤ 2 * δ) :=
+  ⟨GamSxpThm.gam_code_close hl hτ hx, GamSxpThm.sxp_code_close hl hτ hx⟩
+
+-- non-vacuity: the tolerance hypotheses hold with the discrepancies themselves
+example : |esl_gam_cdf (3 : ℝ) 0 1 2 - GamSxpThm.gamCdf 0 1 2 3| ≤
+    max |Num.incGammaP (2 : ℝ) (1 * (3 - 0)) - IncGammaInt.P 2 (1 * (3 - 0))| |Num.incGammaQ (2 : ℝ) (1 * (3 - 0)) - IncGammaInt.Q 2 (1 * (3 - 0))| :=
+  ((gam_sxp_code_close (x := 3) (μ := 0) (l := 1) (τ := 2) (ε := |Num.logGamma (2 : ℝ) - log (Gamma 2)|) (by norm_num) (by norm_num)
+    (by norm_num)).1 le_rfl (le_max_left _ _) (le_max_right _ _)).2.1
+
 /-- `esl_stats_IncompleteGamma` (hand model read over `ℝ`), the facts that need no analysis: it fails (C: `eslERANGE`) for
     `a ≤ 0` or `x < 0`; a result `(P, Q)` implies `a > 0`, `x ≥ 0`, `P + Q = 1`, and it is `P` that is formed as `1 − Q` on
     the continued-fraction branch `x > a + 1`, `Q` as `1 − P` on the series branch. -/
@@ -358,6 +430,39 @@ theorem mixgev_mixture_laws {g : ESL_MIXGEV ℝ} (ok : MixGen.MixgevOK g) :
       |esl_mixgev_surv x g - MixGen.mixgevSurv g x| ≤ 2.3e-16 * MixGen.mixgevQ g ∧
       |esl_mixgev_cdf x g + esl_mixgev_surv x g - MixGen.mixgevQ g| ≤ 2.3e-16 * MixGen.mixgevQ g) :=
   ⟨MixGen.mixgev_textbook_laws ok, fun _ hb => MixGen.mixgev_code_eq_textbook ok hb⟩
+
+/-- mixtures at full strength, for EVERY number of components `K`: the mixture density is the derivative of the mixture
+    cdf at every point that is not a support boundary of a component — hyperexponential: every `x ≠ μ`; GEV mixture:
+    every `x` with `1 + α_k λ_k (x − μ_k) ≠ 0` for all `k` (outside a component's support its cdf is locally constant and
+    its density `0`) — and for normalised coefficients (`Σ q = 1`): cdf + surv = 1, cdf within `[0,1]`, and the
+    hyperexponential cdf tends to 1. -/
+theorem mixture_full_laws :
+    (∀ h : ESL_HYPEREXP ℝ, (∀ x, x ≠ h.mu → HasDerivAt (MixGen.hxpCdf h) (MixGen.hxpPdf h x) x) ∧
+      (MixGen.HxpOK h → MixGen.hxpQ h = 1 → Monotone (MixGen.hxpCdf h) ∧
+        (∀ x, MixGen.hxpCdf h x + MixGen.hxpSurv h x = 1) ∧ (∀ x, 0 ≤ MixGen.hxpCdf h x ∧ MixGen.hxpCdf h x ≤ 1) ∧
+        Filter.Tendsto (MixGen.hxpCdf h) Filter.atTop (nhds 1))) ∧
+    (∀ g : ESL_MIXGEV ℝ, MixGen.MixgevOK g →
+      (∀ x, (∀ k < g.K, gevArg (MixGen.gm g k) (MixGen.gl g k) (MixGen.ga g k) x ≠ 0) →
+        HasDerivAt (MixGen.mixgevCdf g) (MixGen.mixgevPdf g x) x) ∧
+      (MixGen.mixgevQ g = 1 → Monotone (MixGen.mixgevCdf g) ∧ (∀ x, MixGen.mixgevCdf g x + MixGen.mixgevSurv g x = 1) ∧
+        (∀ x, 0 ≤ MixGen.mixgevCdf g x ∧ MixGen.mixgevCdf g x ≤ 1))) :=
+  ⟨fun h => ⟨fun _ hx => MixDeriv.hxp_hasDerivAt_ne h hx, fun ok hQ => by
+      obtain ⟨h1, _, h3, h4, h5⟩ := MixGen.hxp_textbook_laws ok
+      rw [hQ] at h3 h4 h5
+      exact ⟨h1, h5, h3, h4⟩⟩,
+    fun g ok => ⟨fun _ hx => MixDeriv.mixgev_hasDerivAt ok hx, fun hQ => by
+      obtain ⟨h1, h2, h3⟩ := MixGen.mixgev_textbook_laws ok
+      rw [hQ] at h2 h3
+      exact ⟨h1, h3, h2⟩⟩⟩
+
+/-- a normalised three-component hyperexponential satisfies the hypotheses (`K = 3`, `Σ q = 1`) -/
+example : MixGen.HxpOK ({ mu := 1, K := 3, q := [0.25, 0.25, 0.5], lambda := [1, 2, 3], wrk := [0, 0, 0] } : ESL_HYPEREXP ℝ) ∧
+    MixGen.hxpQ ({ mu := 1, K := 3, q := [0.25, 0.25, 0.5], lambda := [1, 2, 3], wrk := [0, 0, 0] } : ESL_HYPEREXP ℝ) = 1 := by
+  constructor
+  · intro k hk
+    have : k = 0 ∨ k = 1 ∨ k = 2 := by simp only at hk; omega
+    rcases this with rfl | rfl | rfl <;> simp [MixGen.hq, MixGen.hl] <;> norm_num
+  · simp [MixGen.hxpQ, MixGen.hq, Finset.sum_range_succ]; norm_num
 
 /-- `esl_vec_DMax` / `esl_vec_DMin` (translated) return an entry of `vec[0..n-1]` that bounds all of them — so the left
     bracket of `esl_mixgev_invcdf` starts at the smallest component location. -/
@@ -493,13 +598,50 @@ theorem bisection_inverses_terminate {p μ l τ δ X : ℝ} {N1 N2 fuel : Nat} (
     fun hx hlow hX h1 h2 => BisectReal.hxp_invcdf_real fuel p hx ▸ BisectTerm.invcdfRight_terminates hδ hlow hX h1 h2 hf1 hf2,
     fun mg XL N0 hf0 hL hR h0 h1 h2 => BisectGen.mixgev_invcdf fuel p mg ▸ BisectTerm.invcdfMix_terminates hL hR h0 h1 h2 hf0 hf1 hf2⟩
 
-/-- Known finding `C10:mixture_invcdf:p-above-cdf-max` (known_findings.d/C10.json), the counter-example over `ℝ`: when `p`
-    lies above every value the (translated) mixture cdf takes — in binary64: `p = 1` and coefficients summing to `1 − 2⁻⁵³` —
-    `esl_hxp_invcdf` returns for NO fuel; the hypothesis `∀ x ≥ X, p ≤ cdf x` of `bisection_inverses_terminate` is exactly
-    what fails.  (The C function then never returns: reproduced, fix proposed.) -/
-theorem bisection_inverses_hang_above_sup {p : ℝ} (h : ESL_HYPEREXP ℝ) (hsup : ∀ x, esl_hxp_cdf x h < p) (fuel : Nat) :
+/-- The ℝ READING of `esl_hxp_invcdf` still hangs above the supremum (former known finding
+    `C10:mixture_invcdf:p-above-cdf-max`, repaired in 55bbf88): over `ℝ` the repaired loop's second test
+    `x2 < eslINFINITY` is always true (`Num.ltInf ≡ true`: every real number is below +infinity), so when `p` lies above
+    every value the translated mixture cdf takes, the real-number function returns for NO fuel.  This is a statement about
+    the ℝ instance ONLY — it says why the termination theorem above needs "`p ≤ cdf x` from some `X` on" — and no
+    longer describes the C function: in binary64 the tripling bracket reaches `+inf` after ≤ 647 passes and the loop
+    stops there (`bisection_bracket_returns_at_infinity` below). -/
+theorem bisection_inverses_real_reading_hangs_above_sup {p : ℝ} (h : ESL_HYPEREXP ℝ) (hsup : ∀ x, esl_hxp_cdf x h < p) (fuel : Nat) :
     esl_hxp_invcdf fuel p h = none :=
   BisectReal.hxp_invcdf_real fuel p h ▸ BisectTerm.invcdfRight_never (cdf := fun x => esl_hxp_cdf x h) hsup fuel
+
+/-- **The repaired bracketing loop returns** (55bbf88), for EVERY carrier, cdf and `p`.  Carrier facts used, as
+    hypotheses: (R) the tripling sequence `x2 ← x2 + 2·(x2 − x1)` started by the C code leaves `< eslINFINITY` after
+    `k + 1 ≤ fuel` passes (`BisectCarrier.reachInf … = some k` computes that `k`); (A) at the point reached,
+    `x2 ≤ (x1 + x2)/2` (binary64: `(μ + inf)/2 = inf`).
+    1. under (R) the right bracketing loop of `esl_hxp_invcdf` and of `esl_mixgev_invcdf` (`Bisect.bracketRightLim` at
+       their translated cdf, see `bisection_inverses_generated`) returns a point `r` of the tripling sequence after at
+       most `k + 1` passes, with `¬ cdf r < p` or `r` not below `eslINFINITY`;
+    2. under (R) + (A), for the input class of the repaired defect (`cdf < p` everywhere) the TRANSLATED `esl_hxp_invcdf`
+       returns `(μ + x2)/2` at that point (binary64: `+inf`) — exactly where its ℝ reading never returns.
+    Binary64 satisfies (R) with `k ≤ 646` and (A) whenever `|μ| < 2^53` (from `2^53` on `μ + 1. == μ`: the bracket has
+    width 0, never moves, (R) fails and the C loop does not end either — far outside the property's location range
+    `±10^3`): evaluated by the driver at `Float` and compared with the C loop on
+    every run (`bracketlim` op, monitor `bracketlim`); a kernel-checked instance on a 4-point saturating carrier is in
+    `Dist/BisectCarrier.lean`. -/
+theorem bisection_bracket_returns_at_infinity {α : Type} [Add α] [Sub α] [Mul α] [Div α] [Neg α] [OfScientific α] [LT α] [LE α]
+    [DecidableLT α] [DecidableLE α] [Num α] :
+    (∀ (cdf : α → α) (p x1 x2 : α) (fuel k : Nat), k < fuel → Num.ltInf (BisectCarrier.tripled x1 (k + 1) x2) = false →
+      ∃ j r, j ≤ k ∧ r = BisectCarrier.tripled x1 (j + 1) x2 ∧ Bisect.bracketRightLim cdf p x1 fuel x2 = some r ∧
+        (¬ cdf r < p ∨ Num.ltInf r = false)) ∧
+    (∀ (p : α) (h : ESL_HYPEREXP α) (fuel k : Nat), (∀ x, esl_hxp_cdf x h < p) →
+      BisectCarrier.reachInf h.mu (fuel + 1) (h.mu + 1.0) = some k →
+      BisectCarrier.tripled h.mu (k + 1) (h.mu + 1.0) ≤ (h.mu + BisectCarrier.tripled h.mu (k + 1) (h.mu + 1.0)) / 2.0 →
+      esl_hxp_invcdf (fuel + 1) p h = some ((h.mu + BisectCarrier.tripled h.mu (k + 1) (h.mu + 1.0)) / 2.0)) :=
+  ⟨fun cdf p x1 x2 fuel k hk hinf => BisectCarrier.bracketRightLim_returns cdf p x1 fuel k x2 hk hinf,
+    fun p h fuel k hsup hreach habs =>
+      (BisectGen.hxp_invcdf (fuel + 1) p h).trans (BisectCarrier.invcdfRightLim_above_sup _ p h.mu hsup hreach habs)⟩
+
+/-- over `ℝ` hypothesis (R) is unsatisfiable — which is the whole point: `reachInf` never finds a real number that is
+    not below +infinity -/
+example (x1 x2 : ℝ) (fuel : Nat) : BisectCarrier.reachInf x1 fuel x2 = none := by
+  induction fuel generalizing x2 with
+  | zero => rfl
+  | succ n ih => simp [BisectCarrier.reachInf, ih]
 
 /-- the hypothesis is satisfiable: a one-component "mixture" with coefficient `0.5` never reaches `p = 1` -/
 example (fuel : Nat) : esl_hxp_invcdf fuel 1 ({ mu := 0, K := 1, q := [0.5], lambda := [1], wrk := [0] } : ESL_HYPEREXP ℝ) = none := by
@@ -507,7 +649,7 @@ example (fuel : Nat) : esl_hxp_invcdf fuel 1 ({ mu := 0, K := 1, q := [0.5], lam
     intro k hk
     have : k = 0 := by simp only at hk; omega
     subst this; simp [MixGen.hq, MixGen.hl]; norm_num
-  apply bisection_inverses_hang_above_sup
+  apply bisection_inverses_real_reading_hangs_above_sup
   intro x
   have h1 := (MixGen.hxp_code_eq_textbook ok x).1
   have h2 := ((MixGen.hxp_textbook_laws ok).2.2.1 x).2
@@ -612,5 +754,39 @@ theorem sample_is_inverse_of_deviate {α : Type} [Add α] [Sub α] [Mul α] [Div
       esl_gumbel_Sample u mu l = esl_gumbel_invcdf u mu l ∧
       esl_gev_Sample u mu l a = esl_gev_invcdf u mu l a ∧ esl_wei_Sample u mu l a = esl_wei_invcdf u mu l a :=
   ⟨by first | exact Or.inl rfl | exact Or.inr rfl, rfl, rfl, rfl⟩
+
+/-- the mixture samplers (TRANSLATED since round 4; `k` = the component `esl_rnd_DChoose` yields, `u` = the positive
+    uniform deviate): the sample is the chosen component's inverse survival (hyperexponential; see above for `log u`
+    vs `log (1-u)`) resp. inverse cdf (GEV mixture) of the deviate, every carrier -/
+theorem mixture_sample_is_component_inverse {α : Type} [Add α] [Sub α] [Mul α] [Div α] [Neg α] [OfScientific α] [LT α] [LE α]
+    [DecidableLT α] [DecidableLE α] [Num α] (u : α) (h : ESL_HYPEREXP α) (g : ESL_MIXGEV α) (k : Nat) :
+    esl_hxp_Sample u h k = esl_exp_invsurv u h.mu (h.lambda.getD k 0.0) ∧
+    esl_mixgev_Sample u g k = esl_gev_invcdf u (g.mu.getD k 0.0) (g.lambda.getD k 0.0) (g.alpha.getD k 0.0) :=
+  ⟨rfl, rfl⟩
+
+/-- the samplers that do NOT go by inversion (TRANSLATED resp. hand-modelled since round 4; the argument is the primitive
+    variate the generator yields): the transformation lands where the family's cdf equals the primitive family's cdf at
+    that variate, so the sample is distributed by the family whenever the primitive variate is distributed by its own.
+    * `esl_sxp_Sample t` (`t` = Gamma(1/τ) variate) `= μ + t^{1/τ}/λ > μ`, textbook `F_sxp(Sample t) = P(1/τ, t)`, and for the
+      code's own cdfs `esl_sxp_cdf (Sample t) = esl_gam_cdf t 0 1 (1/τ)`;
+    * `esl_lognormal_Sample g` (`g` = standard Gaussian variate) `= e^{μ+σg} > 0`, textbook `F_lognormal(Sample g) = Φ(g)`;
+    * `esl_gam_Sample` (hand model `Mix.gamSample` of the redraw loop over the stream of Gamma(τ) variates): the result is
+      `μ + t/λ` for a variate `t` of the stream, never `μ` itself, and `F_gam(μ + t/λ) = P(τ, t)`. -/
+theorem transformed_samples {μ l τ : ℝ} (hl : 0 < l) (hτ : 0 < τ) :
+    (∀ t, 0 < t → esl_sxp_Sample t μ l τ = μ + 1 / l * t ^ (1 / τ) ∧ μ < esl_sxp_Sample t μ l τ ∧
+      GamSxpThm.sxpCdf μ l τ (esl_sxp_Sample t μ l τ) = IncGammaInt.P (1 / τ) t ∧
+      esl_sxp_cdf (esl_sxp_Sample t μ l τ) μ l τ = esl_gam_cdf t 0 1 (1 / τ)) ∧
+    (∀ g, esl_lognormal_Sample g μ l = exp (μ + l * g) ∧ 0 < esl_lognormal_Sample g μ l ∧
+      NormalThm.lognormalCdf μ l (esl_lognormal_Sample g μ l) = NormalThm.normalCdf 0 1 g) ∧
+    (∀ ts x, Mix.gamSample μ l ts = some x → x ≠ μ ∧ ∃ t ∈ ts, x = μ + t / l) ∧
+    (∀ t, 0 < t → GamSxpThm.gamCdf μ l τ (μ + t / l) = IncGammaInt.P τ t) :=
+  ⟨fun _ ht => ⟨SampleThm.sxp_sample_eq ht, (SampleThm.sxp_sample_cdf ht hl hτ).2.1, (SampleThm.sxp_sample_cdf ht hl hτ).1,
+      (SampleThm.sxp_sample_cdf ht hl hτ).2.2⟩,
+    fun _ => SampleThm.lognormal_sample_cdf hl, fun ts x h => SampleThm.gam_sample_spec ts x h,
+    fun _ ht => SampleThm.gam_sample_cdf ht hl⟩
+
+/-- the redraw really happens: a first variate of `0` is skipped -/
+example : Mix.gamSample (3 : ℝ) 2 [0, 4] = some (3 + 4 / 2) := by
+  simp [Mix.gamSample]
 
 end EaselModel.Props.C10
